@@ -17,6 +17,11 @@ func (r *Router) parseParamRoute(route *Route) (first string) {
 
 	// no vars, but contains optional char
 	if len(ss) == 0 {
+		// the plain text before the optional part. eg "/blog/about[.html]" -> "/blog/about"
+		if optPos := strings.IndexByte(path, '['); optPos > 0 {
+			first = route.parseStart(path[0:optPos])
+		}
+
 		regexStr := checkAndParseOptional(quotePointChar(path))
 		route.regex = regexp.MustCompile("^" + regexStr + "$")
 		return
@@ -59,18 +64,7 @@ func (r *Router) parseParamRoute(route *Route) (first string) {
 		minPos = optPos
 	}
 
-	start := path[0:minPos]
-	if len(start) > 1 {
-		route.start = start
-
-		if pos := strings.IndexByte(start[1:], '/'); pos > 0 {
-			first = start[1 : pos+1]
-			// start string only one node. "/users/"
-			if len(start)-len(first) == 2 {
-				route.start = ""
-			}
-		}
-	}
+	first = route.parseStart(path[0:minPos])
 
 	// "." -> "\.". Notice: must quote after collect the start string, it is plain text (not regex).
 	path = quotePointChar(path)
@@ -83,6 +77,26 @@ func (r *Router) parseParamRoute(route *Route) (first string) {
 	// replace {var} -> regex str
 	regexStr := strings.NewReplacer(varRegex...).Replace(path)
 	route.regex = regexp.MustCompile("^" + regexStr + "$")
+	return
+}
+
+// parse the plain start string of a dynamic route path, returns the first node of it.
+//
+//	"/users/"    -> start: "",          first: "users"
+//	"/users/ab"  -> start: "/users/ab", first: "users"
+//	"/users"     -> start: "/users",    first: ""
+func (r *Route) parseStart(start string) (first string) {
+	if len(start) > 1 {
+		r.start = start
+
+		if pos := strings.IndexByte(start[1:], '/'); pos > 0 {
+			first = start[1 : pos+1]
+			// start string only one node. "/users/"
+			if len(start)-len(first) == 2 {
+				r.start = ""
+			}
+		}
+	}
 	return
 }
 
